@@ -118,10 +118,45 @@ func c12Template(shape, scratch string) string {
 		c12Snap(s, scratch, 12, c12TD+"full2.db", nil)
 		c12Snap(s, scratch, 13, "", nil, c12TD+"full2-wal-00")
 	default:
-		panic("unknown shape " + shape)
+		if !strings.HasPrefix(shape, "g:") {
+			panic("unknown shape " + shape)
+		}
+		// "g:F0,I1,I2,F1,I3": full snapshots with that many WAL files of their own, incremental
+		// snapshots with that many WAL files, in this order
+		k := 0
+		nextWal := func() string { k++; return fmt.Sprintf("%swal-%02d", c12TD, (k-1)%4) }
+		for i, part := range strings.Split(shape[2:], ",") {
+			n := int(part[1] - '0')
+			var ws []string
+			for j := 0; j < n; j++ {
+				ws = append(ws, nextWal())
+			}
+			if part[0] == 'F' {
+				k = 0
+				ws = nil
+				for j := 0; j < n; j++ {
+					ws = append(ws, nextWal())
+				}
+				c12Snap(s, scratch, uint64(10+i), c12TD+"backup.db", ws)
+			} else {
+				c12Snap(s, scratch, uint64(10+i), "", nil, ws...)
+			}
+		}
 	}
 	s.Close()
 	return dir
+}
+
+// c12ShapeFiles: number of data files of a generated shape
+func c12ShapeFiles(shape string) int {
+	n := 0
+	for _, part := range strings.Split(shape[2:], ",") {
+		n += int(part[1] - '0')
+		if part[0] == 'F' {
+			n++
+		}
+	}
+	return n
 }
 
 func c12CopyDir(src, dst string) {
@@ -149,6 +184,7 @@ type c12World struct {
 	paths    []string     // data files in catalog order: this is the model's file list
 	pristine [][]byte     // what each of them held when it was written
 	badRec   map[int]bool // files whose checksum record is not a usable record (reference reading)
+	proc     string       // this process' one-time verification, by the property text: "" not yet | passed | failed
 }
 
 func (w *c12World) open() {
@@ -276,6 +312,51 @@ func c12MutateRecord(b []byte, e c12Event) []byte {
 		out = []byte(fmt.Sprintf(`{"crc":"%08x","type":"crc64-nvme"}`, v))
 	}
 	return out
+}
+
+// mismatching: the data files whose bytes no longer have the checksum their record states
+// (computed here from the files themselves, independently of the store)
+func (w *c12World) mismatching() map[int]bool {
+	out := map[int]bool{}
+	for i, p := range w.paths {
+		b, err := os.ReadFile(p)
+		rb, err2 := os.ReadFile(p + crcSuffix)
+		if err != nil || err2 != nil {
+			out[i] = true
+			continue
+		}
+		cls, v := c12RefRecord(rb)
+		if cls == "crc" && crc32.Checksum(b, c12Cast) != v {
+			out[i] = true
+		}
+	}
+	return out
+}
+
+// verdict: must this consumer, which uses the files ids, fail?  From the property text: corruption
+// present when the process first uses snapshot data stops every consumer (and keeps stopping them);
+// corruption arising later stops every consumer that uses the file.
+func (w *c12World) verdict(ids []int) (mustFail bool, why string) {
+	mm := w.mismatching()
+	if len(w.badRec) > 0 {
+		return true, "a checksum record is unusable"
+	}
+	switch w.proc {
+	case "failed":
+		return true, "this process' verification already failed"
+	case "":
+		if len(mm) > 0 {
+			w.proc = "failed"
+			return true, fmt.Sprintf("first use of snapshot data in this process and %d of %d files do not match their records", len(mm), len(w.paths))
+		}
+		w.proc = "passed"
+	}
+	for _, i := range ids {
+		if mm[i] {
+			return true, fmt.Sprintf("file %d of %d, which the consumer uses, does not match its record", i, len(w.paths))
+		}
+	}
+	return false, ""
 }
 
 // leftover: a reap plan (or its temporary) or a temporary directory is in the store directory
@@ -409,12 +490,19 @@ func (w *c12World) run(evs []c12Event) (coqEv []string, obs []string, fail, sig 
 			if len(w.badRec) > 0 {
 				nontrivial = true
 			}
+			mustFail, why := w.verdict(ids)
 			ok, delivered := w.consumeOpen(id, e.Recv)
 			if !ok {
 				emit("EOpen "+c12NatList(ids), 2)
+				if !mustFail && id != "" {
+					note(what+": the consumer failed although every file matches its record", "C12:intact-data-refused")
+				}
 				break
 			}
 			emit("EOpen "+c12NatList(ids), 1)
+			if mustFail {
+				note(what+": the consumer succeeded although "+why, "C12:corruption-not-detected:open")
+			}
 			if len(w.badRec) > 0 {
 				note(what+": a snapshot was opened and delivered although a checksum record of the store is not a usable record (no or unknown checksum type, malformed); its data file counts as not checksummed", "C12:unusable-checksum-record-accepted")
 			}
@@ -443,6 +531,7 @@ func (w *c12World) run(evs []c12Event) (coqEv []string, obs []string, fail, sig 
 			set, err := w.store.getSnapshots()
 			if err != nil {
 				// the catalog cannot be scanned: the reap must refuse too
+				w.verdict(nil)
 				_, c, rerr := w.store.Reap()
 				if rerr == nil && c > 0 {
 					emit("EReap [] [] 0%N", 1)
@@ -452,8 +541,8 @@ func (w *c12World) run(evs []c12Event) (coqEv []string, obs []string, fail, sig 
 				}
 				break
 			}
-			if set.Len() == 0 {
-				continue
+			if set.Len() <= 1 {
+				continue // an empty store or a single snapshot: the reap has nothing to do and reads nothing
 			}
 			newest, _ := set.Newest()
 			ids := w.ids(w.resolve(newest.id))
@@ -481,10 +570,14 @@ func (w *c12World) run(evs []c12Event) (coqEv []string, obs []string, fail, sig 
 			}
 			dirty := w.dirty(ids)
 			badBefore := w.badRec
+			mustFail, why := w.verdict(ids)
 			time.Sleep(2 * time.Millisecond)
 			_, c, rerr := w.store.Reap()
 			if rerr != nil || c == 0 {
 				emit(fmt.Sprintf("EReap %s %s %s", c12NatList(ids), c12NatList(gone), coqN(0)), 2)
+				if !mustFail {
+					note(what+": the reap failed although every file matches its record", "C12:intact-data-refused")
+				}
 				if w.leftover() {
 					note(what+": the refused reap left a reap plan (or temporary entries) in the store directory; the next reap or restart will execute it without verification", "C12:failed-reap-leaves-plan")
 				}
@@ -501,6 +594,9 @@ func (w *c12World) run(evs []c12Event) (coqEv []string, obs []string, fail, sig 
 			if len(badBefore) > 0 {
 				note(what+": a reap consolidated although a checksum record of the store is not a usable record", "C12:unusable-checksum-record-accepted")
 			}
+			if mustFail && !dirty {
+				note(what+": the reap succeeded although "+why, "C12:corruption-not-detected:reap")
+			}
 			if dirty {
 				note(what+": the reap consolidated a data file that no longer matched its recorded checksum and wrote a fresh checksum for the result", "C12:late-corruption-laundered-by-reap")
 			} else if len(w.pristine) != 1 || !bytes.Equal(w.pristine[0], exp) {
@@ -515,6 +611,7 @@ func (w *c12World) run(evs []c12Event) (coqEv []string, obs []string, fail, sig 
 			before := strings.Join(w.paths, "|")
 			w.store.Close()
 			w.open()
+			w.proc = ""
 			emit("ERestart", 0)
 			// a restart is not a consumer: it must not rewrite snapshot data
 			old := w.paths
@@ -736,6 +833,52 @@ func TestVerif_C12(t *testing.T) {
 			}
 		}
 	}
+	// stores of 1..13 data files (several fulls, fulls with WAL files of their own, incrementals with
+	// 1..3 WAL files): every data file corrupted in turn, before the first use and after it
+	gen := []string{"g:F0", "g:F0,I1,I1,I1,I1", "g:F2,I3", "g:F0,I2,I2,I2", "g:F0,I1,F0,I3,I3,I1", "g:F0,I3,I3,I3,I3"}
+	if vTier() == "thorough" {
+		gen = []string{"g:F0", "g:F1", "g:F0,I2", "g:F0,I1,I2", "g:F0,I1,I1,I1,I1", "g:F1,I1,I1,I1,I1", "g:F2,I3", "g:F0,I2,I2,I2", "g:F1,I3,I3",
+			"g:F0,I1,I1,I1,I1,I1,I1,I1,I1", "g:F0,I3,I3,I2", "g:F0,I1,F0,I3,I3,I1", "g:F1,I1,F1,I2,I3,I2", "g:F0,I1,I2,F0,I3,I3,I1", "g:F2,I2,I3,I3,I2", "g:F0,I3,I3,I3,I3"}
+	}
+	for gi, shape := range gen {
+		templates[shape] = c12Template(shape, scratch)
+		nf := c12ShapeFiles(shape)
+		nfiles[shape] = nf
+		c12Run(w, scratch, templates, c12Input{Shape: shape, Events: []c12Event{{Ev: "open", Recv: "restore"}, {Ev: "open", Snap: 1, Recv: "transfer"}, {Ev: "reap"}, {Ev: "open", Recv: "restore"}}})
+		for f := 0; f < nf; f++ {
+			for timing := 0; timing < 2; timing++ {
+				if vTier() != "thorough" && f < nf-3 && timing != (f+gi)%2 {
+					continue // quick: both timings only for the newest files
+				}
+				k := f + timing + gi
+				var evs []c12Event
+				if timing == 1 {
+					evs = append(evs, firstUse[k%2]...)
+				}
+				evs = append(evs, c12Corruption(rng, f, k%5))
+				// a consumer of the newest snapshot, of an older one, or the reap; then the history goes on
+				switch k % 3 {
+				case 0:
+					evs = append(evs, c12Event{Ev: "reap"})
+				case 1:
+					evs = append(evs, c12Event{Ev: "open", Snap: f % 4, Recv: []string{"restore", "transfer"}[k%2]})
+				default:
+					evs = append(evs, c12Event{Ev: "open", Recv: []string{"transfer", "restore"}[k%2]})
+				}
+				evs = append(evs, tails[k%len(tails)]...)
+				c12Run(w, scratch, templates, c12Input{Shape: shape, Events: evs})
+				if vTier() == "thorough" {
+					for c := 0; c < 3; c++ {
+						evs2 := append([]c12Event{}, evs[:len(evs)-len(tails[k%len(tails)])-1]...)
+						evs2 = append(evs2, [][]c12Event{{{Ev: "reap"}}, {{Ev: "open", Snap: (f + 1) % 4, Recv: "restore"}}, {{Ev: "restart"}, {Ev: "open", Recv: "transfer"}}}[c]...)
+						evs2 = append(evs2, tails[(k+c+1)%len(tails)]...)
+						c12Run(w, scratch, templates, c12Input{Shape: shape, Events: evs2})
+					}
+				}
+			}
+		}
+	}
+	shapes = append(shapes, gen...)
 	// checksum-record corruptions: every byte position x bit masks, and structural damage; alone and
 	// together with a corruption of the data file the record covers; present before the store's
 	// first use of its data or arising after it; followed by every kind of consumer
@@ -761,7 +904,7 @@ func TestVerif_C12(t *testing.T) {
 		evs = append(evs, recTail(k)...)
 		c12Run(w, scratch, templates, c12Input{Shape: shape, Events: evs})
 	}
-	for si, shape := range shapes {
+	for si, shape := range shapes[:3] {
 		files := []int{}
 		for f := 0; f < nfiles[shape]; f++ {
 			files = append(files, f)
@@ -775,6 +918,9 @@ func TestVerif_C12(t *testing.T) {
 						}
 					}
 					continue
+				}
+				if (pos+mi+si)%3 == 0 {
+					continue // quick: two thirds of the (position, mask, shape) grid
 				}
 				recCase(shape, (pos+si)%nfiles[shape], (pos+mi+si)%4, pos+mi, c12Event{Kind: "flip", Pos: pos, Mask: m})
 			}
